@@ -13,8 +13,8 @@ Open Scope Z_scope.
 Theorem C16_accounting_invariant :
   forall (C : Type) (clen cmem : C -> Z) (dirsize : Z), (forall c, 0 <= cmem c) ->
   forall K, prefix_free K -> forall d0 mx ops, disk_ok C K d0 -> 0 <= mx -> Forall (op_ok C K) ops ->
-  accounting C cmem (fst (kvs_run C clen cmem dirsize ufm_oversize_uncached ufm_uncached_purges kvs_get_catches_fnf (open_cache C d0 mx) ops)).
-Proof. exact (accounting_flag ufm_oversize_uncached ufm_uncached_purges kvs_get_catches_fnf eq_refl eq_refl eq_refl). Qed.
+  accounting C cmem (fst (kvs_run C clen cmem dirsize ufm_oversize_uncached ufm_uncached_purges task_failure_forgets kvs_get_catches_fnf (open_cache C d0 mx) ops)).
+Proof. exact (accounting_flag ufm_oversize_uncached ufm_uncached_purges task_failure_forgets kvs_get_catches_fnf eq_refl eq_refl eq_refl eq_refl). Qed.
 Print Assumptions C16_accounting_invariant.
 
 (* T16.refine — the key-value store IS a dictionary (with capacity refusals): over the same histories the
@@ -25,18 +25,18 @@ Theorem C16_refines_dictionary :
   forall (C : Type) (clen cmem : C -> Z) (dirsize : Z), (forall c, 0 <= cmem c) ->
   forall K, prefix_free K -> forall d0 m0 mx ops, disk_ok C K d0 -> 0 <= mx ->
   (forall k, In k K -> assoc m0 k = file_of C (lookup C d0 k)) -> Forall (op_ok C K) ops ->
-  snd (kvs_run C clen cmem dirsize ufm_oversize_uncached ufm_uncached_purges kvs_get_catches_fnf (open_cache C d0 mx) ops)
-  = snd (spec_run C clen (mkS C m0 (norm_max mx)) ops).
-Proof. exact (refines_flag ufm_oversize_uncached ufm_uncached_purges kvs_get_catches_fnf eq_refl eq_refl eq_refl). Qed.
+  mask C ops (snd (kvs_run C clen cmem dirsize ufm_oversize_uncached ufm_uncached_purges task_failure_forgets kvs_get_catches_fnf (open_cache C d0 mx) ops))
+  = mask C ops (snd (spec_run C clen (mkS C m0 (norm_max mx)) ops)).
+Proof. exact (refines_flag ufm_oversize_uncached ufm_uncached_purges task_failure_forgets kvs_get_catches_fnf eq_refl eq_refl eq_refl eq_refl). Qed.
 Print Assumptions C16_refines_dictionary.
 
 (* the same from an empty directory *)
 Theorem C16_fresh_store_is_dictionary :
   forall (C : Type) (clen cmem : C -> Z) (dirsize : Z), (forall c, 0 <= cmem c) ->
   forall K, prefix_free K -> forall mx ops, 0 <= mx -> Forall (op_ok C K) ops ->
-  snd (kvs_run C clen cmem dirsize ufm_oversize_uncached ufm_uncached_purges kvs_get_catches_fnf (open_cache C [] mx) ops)
-  = snd (spec_run C clen (mkS C [] (norm_max mx)) ops).
-Proof. exact (fresh_store_flag ufm_oversize_uncached ufm_uncached_purges kvs_get_catches_fnf eq_refl eq_refl eq_refl). Qed.
+  mask C ops (snd (kvs_run C clen cmem dirsize ufm_oversize_uncached ufm_uncached_purges task_failure_forgets kvs_get_catches_fnf (open_cache C [] mx) ops))
+  = mask C ops (snd (spec_run C clen (mkS C [] (norm_max mx)) ops)).
+Proof. exact (fresh_store_flag ufm_oversize_uncached ufm_uncached_purges task_failure_forgets kvs_get_catches_fnf eq_refl eq_refl eq_refl eq_refl). Qed.
 Print Assumptions C16_fresh_store_is_dictionary.
 
 Theorem C16_default_limit : default_max = default_max_src.
@@ -65,7 +65,7 @@ Theorem C16_table_store_set :
   let old := match stored s n with Some f => f | None => [] end in
   (match stored s n with Some f => flen f <= c_max frame s | None => True end) ->
   flen (merge_frames old new) <= c_max frame s ->
-  exists s', tbl_set flen fmem dirsize true true s n new t1 t2 ch1 ch2 = (s', TSet) /\
+  exists s', tbl_set flen fmem dirsize true true true s n new t1 t2 ch1 ch2 = (s', TSet) /\
              Inv frame fmem K s' /\ c_max frame s' = c_max frame s /\
              stored s' n = Some (merge_frames old new) /\
              forall k, In k K -> k <> n -> stored s' k = stored s k.
@@ -77,7 +77,7 @@ Theorem C16_table_store_get :
   forall K, forall (s : cache frame) n t ch,
   Inv frame fmem K s -> In n K ->
   (match stored s n with Some f => flen f <= c_max frame s | None => True end) ->
-  exists s', tbl_get flen fmem dirsize true true s n t ch = (s', match stored s n with Some f => TVal f | None => TUndef end) /\
+  exists s', tbl_get flen fmem dirsize true true true s n t ch = (s', match stored s n with Some f => TVal f | None => TUndef end) /\
              Inv frame fmem K s' /\ c_max frame s' = c_max frame s /\ forall k, stored s' k = stored s k.
 Proof. exact tbl_get_spec. Qed.
 Print Assumptions C16_table_store_get.
@@ -89,9 +89,9 @@ Theorem C16_successive_stores_share_one_dictionary :
   forall K, prefix_free K -> forall ss d0 m0, disk_ok C K d0 ->
   (forall k, In k K -> assoc m0 k = file_of C (lookup C d0 k)) ->
   Forall (fun s => 0 <= fst s /\ Forall (op_ok C K) (snd s)) ss ->
-  snd (sessions_run C clen cmem dirsize ufm_oversize_uncached ufm_uncached_purges kvs_get_catches_fnf d0 ss)
-  = snd (spec_sessions C clen m0 ss).
-Proof. exact (sessions_flag ufm_oversize_uncached ufm_uncached_purges kvs_get_catches_fnf eq_refl eq_refl eq_refl). Qed.
+  mask_sessions C ss (snd (sessions_run C clen cmem dirsize ufm_oversize_uncached ufm_uncached_purges task_failure_forgets kvs_get_catches_fnf d0 ss))
+  = mask_sessions C ss (snd (spec_sessions C clen m0 ss)).
+Proof. exact (sessions_flag ufm_oversize_uncached ufm_uncached_purges task_failure_forgets kvs_get_catches_fnf eq_refl eq_refl eq_refl eq_refl). Qed.
 Print Assumptions C16_successive_stores_share_one_dictionary.
 
 (* T16.table over histories: for every sequence of table sets / gets / unloads / reopens AND in-place modifications by the
@@ -101,25 +101,27 @@ Print Assumptions C16_successive_stores_share_one_dictionary.
 Theorem C16_table_store_refines_dictionary :
   forall (flen fmem : frame -> Z) (dirsize : Z), (forall f, 0 <= fmem f) ->
   forall K, prefix_free K -> forall mx ops, 0 <= mx -> Forall (top_ok K) ops ->
-  snd (tbl_run flen fmem dirsize ufm_oversize_uncached ufm_uncached_purges table_get_returns_copy (open_cache frame [] mx) ops)
+  snd (tbl_run flen fmem dirsize ufm_oversize_uncached ufm_uncached_purges task_failure_forgets table_get_returns_copy (open_cache frame [] mx) ops)
   = snd (tspec_run flen (mkS frame [] (norm_max mx)) ops).
-Proof. exact (table_flag ufm_oversize_uncached ufm_uncached_purges table_get_returns_copy eq_refl eq_refl eq_refl). Qed.
+Proof. exact (table_flag ufm_oversize_uncached ufm_uncached_purges task_failure_forgets table_get_returns_copy eq_refl eq_refl eq_refl eq_refl). Qed.
 Print Assumptions C16_table_store_refines_dictionary.
 
 (* ---- the full statement (no restriction on keys or sizes) and why it is false for the code as written ---- *)
 Definition zid (z : Z) : Z := z.
 Definition C16_full_statement : Prop :=
   forall mx ops, 0 <= mx ->
-    snd (kvs_run Z zid zid 4096 true true true (open_cache Z [] mx) ops) = snd (spec_run Z zid (mkS Z [] (norm_max mx)) ops) /\
-    accounting Z zid (fst (kvs_run Z zid zid 4096 true true true (open_cache Z [] mx) ops)).
+    snd (kvs_run Z zid zid 4096 true true true true (open_cache Z [] mx) ops) = snd (spec_run Z zid (mkS Z [] (norm_max mx)) ops) /\
+    accounting Z zid (fst (kvs_run Z zid zid 4096 true true true true (open_cache Z [] mx) ops)).
 
 (* K1 (known finding C16-prefix-keys): keys "a/x" and "a".  After set a/x, the never-set key a raises
-   IsADirectoryError instead of :undefined, a set of a fails, and current_memory_usage is negative. *)
+   IsADirectoryError instead of :undefined and a set of a fails (the accounting stays exact since ada72ef). *)
 Definition prefix_witness : list (op Z) := [OSet [1; 2] 5 1 []; OGet [1] 2 []; OSet [1] 5 3 []].
 Theorem C16_prefix_refuted :
-  snd (kvs_run Z zid zid 4096 true true true (open_cache Z [] 0) prefix_witness) = [RSet; RErr IsADirectory; RErr IsADirectory] /\
+  snd (kvs_run Z zid zid 4096 true true true true (open_cache Z [] 0) prefix_witness) = [RSet; RErr IsADirectory; RErr IsADirectory] /\
   snd (spec_run Z zid (mkS Z [] (norm_max 0)) prefix_witness) = [RSet; RUndef; RSet] /\
-  c_mem Z (fst (kvs_run Z zid zid 4096 true true true (open_cache Z [] 0) prefix_witness)) = -4091.
+  c_mem Z (fst (kvs_run Z zid zid 4096 true true true true (open_cache Z [] 0) prefix_witness)) = 5 /\
+  (* before ada72ef the failed entries stayed and the accounting went negative as well *)
+  c_mem Z (fst (kvs_run Z zid zid 4096 true true false true (open_cache Z [] 0) prefix_witness)) = -4091.
 Proof. vm_compute. repeat split; reflexivity. Qed.
 
 Theorem C16_full_statement_refuted : ~ C16_full_statement.
@@ -129,7 +131,7 @@ Qed.
 
 (* K2 (fixed by f420351): without the FileNotFoundError handler a never-set key raises *)
 Theorem C16_missing_refuted_without_handler :
-  snd (kvs_run Z zid zid 4096 true true false (open_cache Z [] 0) [OGet [1] 1 []]) = [RErr FileNotFound] /\
+  snd (kvs_run Z zid zid 4096 true true true false (open_cache Z [] 0) [OGet [1] 1 []]) = [RErr FileNotFound] /\
   snd (spec_run Z zid (mkS Z [] (norm_max 0)) [OGet [1] 1 []]) = [RUndef].
 Proof. vm_compute. split; reflexivity. Qed.
 
@@ -139,9 +141,9 @@ Proof. vm_compute. split; reflexivity. Qed.
 Definition lenmem := (Z * Z)%type.
 Definition mem_witness : list (op lenmem) := [OSet [1] (10, 50) 1 []; OGet [1] 2 []; OSet [1] (10, 5) 3 []].
 Theorem C16_mem_over_limit_refuted_without_guard :
-  snd (kvs_run lenmem fst snd 4096 false false true (open_cache lenmem [] 20) mem_witness)
+  snd (kvs_run lenmem fst snd 4096 false false false true (open_cache lenmem [] 20) mem_witness)
     = [RErr AssertionErr; RErr AssertionErr; RErr AssertionErr] /\
-  snd (kvs_run lenmem fst snd 4096 true true true (open_cache lenmem [] 20) mem_witness) = [RSet; RVal (10, 50); RSet] /\
+  snd (kvs_run lenmem fst snd 4096 true true true true (open_cache lenmem [] 20) mem_witness) = [RSet; RVal (10, 50); RSet] /\
   snd (spec_run lenmem fst (mkS lenmem [] 20) mem_witness) = [RSet; RVal (10, 50); RSet].
 Proof. vm_compute. repeat split; reflexivity. Qed.
 
@@ -149,8 +151,8 @@ Proof. vm_compute. repeat split; reflexivity. Qed.
 Definition stale_witness : list (op lenmem) :=
   [OSet [1] (5, 5) 1 []; OSet [2] (5, 5) 2 []; OSet [1] (5, 50) 3 []; OSet [3] (8, 8) 4 [[1]]].
 Theorem C16_stale_item_refuted_without_purge :
-  snd (kvs_run lenmem fst snd 4096 true false true (open_cache lenmem [] 12) stale_witness) = [RSet; RSet; RSet; RErr KeyErr] /\
-  snd (kvs_run lenmem fst snd 4096 true true true (open_cache lenmem [] 12) stale_witness) = [RSet; RSet; RSet; RSet].
+  snd (kvs_run lenmem fst snd 4096 true false true true (open_cache lenmem [] 12) stale_witness) = [RSet; RSet; RSet; RErr KeyErr] /\
+  snd (kvs_run lenmem fst snd 4096 true true true true (open_cache lenmem [] 12) stale_witness) = [RSet; RSet; RSet; RSet].
 Proof. vm_compute. split; reflexivity. Qed.
 
 (* K4: if a get handed out the cached DataFrame itself (Table.__init__ without .copy()), a local change of a fetched
@@ -159,37 +161,26 @@ Definition alias_witness : list top :=
   [TOSet [1] [(1, 10); (2, 20)] 1 2 [] []; TOGet [1] 3 []; TOModify [1] [(1, 10); (2, 20); (3, 99)]; TOGet [1] 4 []].
 Theorem C16_alias_refuted_without_copy :
   let fl := fun f : frame => Z.of_nat (length f) in
-  snd (tbl_run fl fl 4096 true true false (open_cache frame [] 100) alias_witness)
+  snd (tbl_run fl fl 4096 true true true false (open_cache frame [] 100) alias_witness)
     = [TSet; TVal [(1, 10); (2, 20)]; TNone; TVal [(1, 10); (2, 20); (3, 99)]] /\
-  snd (tbl_run fl fl 4096 true true true (open_cache frame [] 100) alias_witness)
+  snd (tbl_run fl fl 4096 true true true true (open_cache frame [] 100) alias_witness)
     = [TSet; TVal [(1, 10); (2, 20)]; TNone; TVal [(1, 10); (2, 20)]] /\
   snd (tspec_run fl (mkS frame [] 100) alias_witness) = [TSet; TVal [(1, 10); (2, 20)]; TNone; TVal [(1, 10); (2, 20)]].
 Proof. vm_compute. repeat split; reflexivity. Qed.
 
-(* T16.fault (partial) — a load that fails (read fault in _load_file) answers with the error, changes nothing but adds
-   one entry holding the failed future and a size never added to current_memory_usage: the accounting over the HELD
-   entries is exactly as before.  [_partial: a step-level statement from any state of the invariant; histories that go
-   on after a failed load are covered by the correspondence only, and see K5 for what happens to the SAME key] *)
-Theorem C16_failed_load_effect_partial :
-  forall (C : Type) (clen cmem : C -> Z) (dirsize : Z) (K : list name) (s : cache C) n t ch e c,
-  Inv C cmem K s -> lookup C (c_disk C s) n = Some (File c) -> clen c <= c_max C s -> assoc (c_entries C s) n = None ->
-  let s' := fst (get_file_fault C clen cmem dirsize true true s n t ch e) in
-  snd (get_file_fault C clen cmem dirsize true true s n t ch e) = inr e /\
-  c_disk C s' = c_disk C s /\ c_heap C s' = c_heap C s /\ c_mem C s' = c_mem C s /\ c_max C s' = c_max C s /\
-  c_entries C s' = c_entries C s ++ [(n, mkE C false (clen c) (FErr e))] /\
-  held C (c_entries C s') = c_entries C s /\ c_mem C s' = sumb C (held C (c_entries C s')) /\ 0 <= c_mem C s' <= c_max C s'.
-Proof. exact failed_load_effect. Qed.
-Print Assumptions C16_failed_load_effect_partial.
-
-(* K5 (known finding C16-failed-load-entry): the entry of a failed load stays.  Later gets of the SAME key re-raise the
-   remembered error although the file is readable again, and a later set (or unload, or eviction after such a get) of
-   that key subtracts the size that was never added: current_memory_usage 0 while the cache holds 5 bytes. *)
+(* T16.fault — fault operations (a get whose load fails) are now part of the histories of C16_accounting_invariant and of
+   the refinement theorems above (the answers of the fault operations themselves are masked: whether a fault is hit depends on
+   caching).  K5 (fixed by ada72ef, parameterised by the regenerated flag): when a failing task left its entry behind, later
+   gets of the SAME key re-raised the remembered error and a later set subtracted a size that had never been added. *)
 Definition fault_witness : list (op Z) :=
   [OSet [1] 5 1 []; OReopen 0; OGetFault [1] 2 [] IOErr; OGet [1] 3 []; OSet [1] 5 4 []].
-Theorem C16_failed_load_same_key_refuted :
-  snd (kvs_run Z zid zid 4096 true true true (open_cache Z [] 0) fault_witness) = [RSet; RNone; RErr IOErr; RErr IOErr; RSet] /\
-  (let s := fst (kvs_run Z zid zid 4096 true true true (open_cache Z [] 0) fault_witness) in
-   c_mem Z s = 0 /\ sumb Z (held Z (c_entries Z s)) = 5).
+Theorem C16_failed_load_refuted_without_run_task :
+  snd (kvs_run Z zid zid 4096 true true false true (open_cache Z [] 0) fault_witness) = [RSet; RNone; RErr IOErr; RErr IOErr; RSet] /\
+  (let s := fst (kvs_run Z zid zid 4096 true true false true (open_cache Z [] 0) fault_witness) in
+   c_mem Z s = 0 /\ sumb Z (held Z (c_entries Z s)) = 5) /\
+  snd (kvs_run Z zid zid 4096 true true true true (open_cache Z [] 0) fault_witness) = [RSet; RNone; RErr IOErr; RVal 5; RSet] /\
+  (let s := fst (kvs_run Z zid zid 4096 true true true true (open_cache Z [] 0) fault_witness) in
+   c_mem Z s = 5 /\ sumb Z (held Z (c_entries Z s)) = 5).
 Proof. vm_compute. repeat split; reflexivity. Qed.
 
 (* _write_file opens exactly the file of the key it writes and renames/removes nothing (regenerated) *)
@@ -205,9 +196,9 @@ Definition ex_ops : list (op Z) :=
 Example C16_example_hypotheses : prefix_free ex_K /\ Forall (op_ok Z ex_K) ex_ops.
 Proof. split; [apply prefix_freeb_ok | apply op_okb_ok]; vm_compute; reflexivity. Qed.
 Example C16_example_run :
-  snd (kvs_run Z zid zid 4096 true true true (open_cache Z [] 12) ex_ops)
+  snd (kvs_run Z zid zid 4096 true true true true (open_cache Z [] 12) ex_ops)
   = [RSet; RSet; RVal 6; RSet; RUndef; RErr MemoryErr; RNone; RNone; RVal 5; RVal 7; RVal 6] /\
-  map (fun e => fst e) (c_entries Z (fst (kvs_run Z zid zid 4096 true true true (open_cache Z [] 12) ex_ops))) = [[1]].
+  map (fun e => fst e) (c_entries Z (fst (kvs_run Z zid zid 4096 true true true true (open_cache Z [] 12) ex_ops))) = [[1]].
 Proof. vm_compute. split; reflexivity. Qed.
 Example C16_example_merge :
   merge_frames [(1, 10); (3, 30); (5, 50)] [(5, 51); (2, 20); (5, 52); (1, 11)] = [(1, 10); (2, 20); (3, 30); (5, 50)].
